@@ -74,7 +74,7 @@ def run_jobs(mod, jobs, nproc=None, timeout=None):
     """Runs jobs in worker subprocesses; returns (results, problems). results[i] aligns with jobs order
     by job['_i']."""
     nproc = nproc or env.NCPU
-    timeout = timeout or getattr(mod, 'SHARD_TIMEOUT', 1500)
+    timeout = timeout or getattr(mod, 'SHARD_TIMEOUT', 3600)
     modname = mod.__name__
     for i, j in enumerate(jobs):
         j['_i'] = i
